@@ -59,15 +59,20 @@ def parse(t):
         while i < len(t):
             if len(steps) == npre:
                 npre = -1
-                ns = t[i]
-                i += 1
+                hp, ns = t[i], t[i + 1]
+                i += 2
                 script = []
                 for _ in range(ns):
                     name, n = OPN[t[i]]
                     script.append("%s%s" % (name, tuple(t[i + 1:i + 1 + n])))
                     i += 1 + n
+                npr = t[i]
+                pruned = t[i + 1:i + 1 + npr]
+                i += 1 + npr
                 o, i = obs(i)
-                steps.append(("TrimOpenConns<during: %s>" % "; ".join(script), [], o))
+                steps.append(("TrimOpenConns<during, hook %s: %s%s>" % (
+                    {1: "after snapshot/before selection", 2: "after selection/at first close"}.get(hp, hp),
+                    "; ".join(script), (" | pruned before script: %s" % pruned) if pruned else ""), [], o))
                 continue
             name, n = OPN[t[i]]
             args = t[i + 1:i + 1 + n]
@@ -162,6 +167,13 @@ CLAUSE = {11: "a TrimOpenConns closed a connection of a protected peer, of a pee
           22: "a ForceTrim closed a protected peer while an unprotected peer kept a connection",
           23: "a ForceTrim closed a peer while a lower-valued peer of the same protection class was kept",
           24: "a ForceTrim closed connections although the count was at or below the low watermark",
+          30: "a trim (racing with scripted operations) closed a connection of a peer it never snapshotted as a candidate",
+          31: "a trim (racing with scripted operations) closed a connection of a peer that was protected when the trim snapshotted it",
+          32: "a trim (racing with scripted operations) closed a connection of a peer that was inside its grace period when snapshotted",
+          33: "a trim that found the count at or below the low watermark closed connections (concurrent class)",
+          34: "a trim left more than low + (connections added to its candidates after their snapshot) connections on its live candidates",
+          35: "a pruned temporary entry held a connection",
+          36: "the sort's comparator read a torn value",
           3: "connection count differs from what the Connected/Disconnected notifications imply",
           4: "a peer's tag total differs from what the tag operations imply"}
 
@@ -175,8 +187,13 @@ if __name__ == "__main__":
     ctx.assumptions = [
         "Go int / time modelled as unbounded Z (no overflow); time in whole virtual seconds",
         "each exported method and each decayer command is one atomic step (segment locks, plk, trimMutex not modelled); "
-        "trims concurrent with tag/connect operations are covered by the correspondence only (theorems named _partial say so): random goroutine races "
-        "judged at quiescence, plus the deterministic during-trim class (ops injected between a trim's candidate snapshot and its selection loop)",
+        "concurrency is modelled as an LTS of critical sections (Conc.v): TrimOpenConns split into begin / per-peer snapshot / sort comparisons / per-entry "
+        "selection / close, the decayer tick split per peer, every other method one section; per-peer snapshot and tick steps in any order are a superset of the "
+        "code's per-segment sections; Protect/Unprotect block during the snapshot phase (plk); one trim at a time (trimMutex); NOT split: ForceTrim, the decaying-tag "
+        "Close command; the background loop's unlocked trim() is not modelled; a snapshot entry whose peerInfo object left the map is a flag (such an object has no "
+        "connections and is not temp for ever); sequential consistency at section granularity",
+        "the implementation's interleavings are observable only at two hook points inside a trim (in the sort's comparator via Stat(), at the first CloseWithError) "
+        "and at quiescence of random goroutine races; other schedules of the LTS are covered by the theorems only",
         "sort.Slice enters as a Section variable with hypotheses 'permutation' and 'ordered by (temp, value)'; instantiated by insertion sort; "
         "the stream/direction tie-breakers are not modelled, every resolution of ties is admitted by trim_ok",
         "an absent tag and a tag of value 0 are identified (the property is about totals); decaying tags use DecayNone/DecayFixed(k>=0) and "
@@ -191,7 +208,7 @@ if __name__ == "__main__":
     standard_flow(ctx, dict(
         coq_targets=["c14/Properties.vo", "c14/Extract.vo"],
         props="c14/Properties.v",
-        spec_module="c14.Spec",
+        spec_module="c14.SpecConc",
         harness=harness,
         replay_harness=replay_harness, warm=warm,
         nontrivial=nontrivial,
@@ -207,7 +224,12 @@ if __name__ == "__main__":
              "new connection + tag change, new peer, random mixes) is executed synchronously from INSIDE TrimOpenConns, between its candidate snapshot and "
              "its selection loop (hook in the fake conns' Stat(), which the sort's comparator calls; TryLock ensures the script's peers are not the two being "
              "compared); judged at quiescence by the bookkeeping monitor (count, totals, closed conns only of peers eligible at the snapshot), then the case "
-             "continues sequentially so later Disconnected/trims for the touched peers are judged too. CONCURRENT cases (300 quick / 10000 thorough): 6 goroutines doing "
+             "continues sequentially so later Disconnected/trims for the touched peers are judged too. Two hook points: inside the sort (after the "
+             "snapshot, before the selection loop) and at the first CloseWithError (after the selection loop); scripts also contain Protect/Unprotect and "
+             "decaying Bump/Remove. The case is rendered as the LTS event trace ETrimBegin, ESnap p.., ESnapEnd, [EPrune..], EOp script.., [EPrune..], EClosed and "
+             "judged by the concurrent-trace monitor cmon (clauses 30-36: protected/in-grace at snapshot never closed; at most low + added left on the live "
+             "candidates; count/totals), the same monitor that is proved to accept every schedule of the LTS; two directed cases replay the vm_compute "
+             "witnesses of Properties.v on the implementation. CONCURRENT cases (300 quick / 10000 thorough): 6 goroutines doing "
              "Connected/Disconnected/TagPeer/UntagPeer/UpsertTag on their own connection/tag ids of all peers while 2 goroutines call TrimOpenConns "
              "in a loop; at quiescence count and totals must equal what the op lists imply (interleaving-independent by construction) and no closed "
              "connection may belong to a peer that was protected or inside its grace period throughout. Non-trivial = a trim closed at least one connection; distinct = distinct lines.",
